@@ -283,8 +283,8 @@ func checkC01() fw.Check {
 			wins, bases := windowsThorough, basesThorough[:3]
 			seeds := 1
 			if tier == "thorough" {
-				wins, bases = windowsThorough, basesThorough
-				seeds = 40
+				wins, bases = thoroughWindows(seed, 12), thoroughBases(seed, 6)
+				seeds = 30
 			}
 			var cases []fw.Case
 			for _, v := range refmatch.Variants {
